@@ -241,7 +241,7 @@ public:
     /// \returns Number of elements removed.
     constexpr auto erase(key_type const& key) noexcept -> size_type
     {
-        if (auto* pos = etl::lower_bound(begin(), end(), key); pos != end()) {
+        if (auto* pos = etl::lower_bound(begin(), end(), key); pos != end() && !(key < *pos)) {
             erase(pos);
             return 1;
         }
